@@ -62,7 +62,7 @@ LEVEL_NOTE = ("modelled, not verified: graph/{nodes,graph,visit,transform,copy,r
               "the two nodes they are given that answer with a fresh node or with `current` mutated - answering with another existing node "
               "(e.g. the parent, mutated) or changing `parent` is not modelled (the store would no longer be topologically ordered); splice "
               "overrides answer with a fresh node of the given name whose inputs are (a renaming/selection of) what they are given; sub-graphs "
-              "are values: after the fix 753c80b Splicer copies the sub-graph's nodes, so handing out one Graph object for several nodes is the "
+              "are values: after the fix 0e32f4b Splicer copies the sub-graph's nodes, so handing out one Graph object for several nodes is the "
               "same as fresh copies (exercised); every transformer except copy_graph re-uses and re-wires the INPUT graph's node objects in "
               "place (documented by the XXX comments), so 'input unchanged' is demanded of copy only. Known model mismatch outside the domain of "
               "expand: asking for an output that does not exist makes the model stop with noOutput at the lookup, whereas the real "
